@@ -25,4 +25,9 @@ pub struct Meta {
    /// free-form labels used for the evidence distribution
    #[serde(default)]
    pub labels: Vec<String>,
+   /// set for committed replays of known findings: the group is run on `fixed_input` only
+   #[serde(default)]
+   pub finding_id: Option<String>,
+   #[serde(default)]
+   pub fixed_input: Option<crate::val::Db>,
 }
